@@ -125,7 +125,7 @@ impl BlockCipherDecBackend for TdesEde3 {
 
 impl fmt::Debug for TdesEde3 {
     fn fmt(&self, f: &mut fmt::Formatter<'_>) -> fmt::Result {
-        f.write_str("TdesEee3 { ... }")
+        f.write_str("TdesEde3 { ... }")
     }
 }
 
